@@ -316,7 +316,7 @@ def pipe_yield_rule(F, chk):
     cands = [p for p in F.paths() if p.startswith("<sozu_lib::protocol::pipe::Pipe") and p.endswith("SessionState>::ready")]
     if not r.require(cands, "<Pipe as SessionState>::ready not found"):
         return
-    b = F.body(cands[0])
+    b = lib.flat(F, F.body(cands[0]))          # the guards may live in a private predicate (`fn should_yield(&self) -> bool`)
     r.fn(b.path)
     def field_chain(op):
         l = op_local(op)
@@ -339,7 +339,9 @@ def pipe_yield_rule(F, chk):
     key = "%s|yield on backend hup + blocked frontend" % b.path
     ok = False
     for sb, tgt in kinds["ev"]:
-        if kinds["hup"] and kinds["int"] and lib.guarded_by(b, tgt, kinds["hup"]) and lib.guarded_by(b, tgt, kinds["int"]):
+        # the `event not writable` test is only reached once `backend hup` and `write interest` held (the exit it leads to
+        # may be shared with another yield reason, so the exit block itself need not be dominated by them)
+        if kinds["hup"] and kinds["int"] and lib.guarded_by(b, sb, kinds["hup"]) and lib.guarded_by(b, sb, kinds["int"]):
             ok = True
     if ok:
         r.ok(key, b.where(kinds["ev"][0][0]), "loop exit behind backend.event.is_hup() && frontend.interest.is_writable() && !frontend.event.is_writable()")
